@@ -169,6 +169,10 @@ package method_evaluator
 //@   sitesonly
 //@   inline 2 1
 //@   callsite[C16] GetMethodT a_isPrivate == false
+//@   # C27: methods and attributes of the receiver are looked up in the receiver's frame (the namespace
+//@   # its class lives in), not in the frame of the code that makes the call
+//@   callsite[C27] GetMethodT a_frame == m.evaluatedObjectT.GetFrame()
+//@   callsite[C27] GetInstanceValueT a_frame == m.evaluatedObjectT.GetFrame()
 
 //@ # ---- C08: no false alarm for a union argument that is a sub-union of the parameter ----
 //@ func ti/eval/method_evaluator.checkArgType
